@@ -17,7 +17,7 @@ for c in ("gzip", "xz", "lzma", "lz4", "zstd"):
     KINDS["comp_%s_c" % c] = (1, False, 0)
     KINDS["comp_%s_u" % c] = (1, False, 0)
 DEVS = ["CopyWithoutObjectInit", "ChildCopyWithoutObjectInit", "ShallowBuffer", "SharedNotGrabbed",
-        "RefcountCopied", "ChildNotCopied"]
+        "RefcountCopied", "ChildNotCopied", "FailedCopyReleasesOriginal"]
 
 
 def test_image(path):
@@ -45,6 +45,8 @@ def history_from_path(nodes, edges, path):
             lines.append("query %s" % args[0])
         elif name == "Grab":
             lines.append("grab %s" % args[0])
+        elif name == "CopyFails":
+            lines.append("copyfail %s @K" % args[0])            # @K: which allocation fails, chosen per replay
         elif name == "Copy":
             new = set(nodes[b]["alive"]) - set(nodes[a]["alive"])
             lines.append("copy %s %d" % (args[0], sorted(new)[0]))
@@ -64,7 +66,8 @@ def run(tier):
     rep = Reporter(PID, ev)
     work = scratch("c19")
     binp = work + "/replay_objlife"
-    if not build.compile_harness(VERIF + "/harness/replay_objlife.c", binp, variant="asan"):
+    if not build.compile_harness(VERIF + "/harness/replay_objlife.c", binp, variant="asan",
+                                 extra=["-Wl,--wrap=malloc", "-Wl,--wrap=calloc", "-Wl,--wrap=realloc", "-Wl,--wrap=strdup"]):
         raise RuntimeError("harness build failed")
     image = work + "/img.sqfs"
     test_image(image)
@@ -106,6 +109,8 @@ def run(tier):
                     lines.append("query %s" % args[0])
                 elif name == "Grab":
                     lines.append("grab %s" % args[0])
+                elif name == "CopyFails":
+                    lines.append("copyfail %s @K" % args[0])
                 elif name == "Copy":
                     new = set(tr[i]["alive"]) - set(tr[i - 1]["alive"])
                     lines.append("copy %s %d" % (args[0], sorted(new)[0] if new else 3))
@@ -134,7 +139,7 @@ def run(tier):
     edges = [e for e in edges if not e[2].startswith(("Finished", "HarnessRelease"))]
     paths, unc = vlib.path_cover(nodes, edges, init, rng=rng)
     hists = [history_from_path(nodes, edges, p) for p in paths]
-    hists = [h for h in hists if any(l.startswith("copy") for l in h)]
+    hists = [h for h in hists if any(l.startswith("copy") for l in h)]            # copy or copyfail
     seen = set()
     uniq = []
     for h in hists:
@@ -152,7 +157,13 @@ def run(tier):
         for i, h in enumerate(sel):
             jobs.append((kind, "g%d" % i, h))
         for dev, lines in witnesses:
-            jobs.append((kind, "w_" + dev, lines))
+            if any("@K" in l for l in lines):
+                for K in range(1, 9):                                             # every allocation of the copy hook in turn
+                    jobs.append((kind, "w_%s_k%d" % (dev, K), [l.replace("@K", str(K)) for l in lines]))
+            else:
+                jobs.append((kind, "w_" + dev, lines))
+    # histories from the graph: which allocation of a failing copy fails is chosen per history
+    jobs = [(k, t, [l.replace("@K", str(1 + (j * 7 + n) % 6)) for n, l in enumerate(ls)]) for j, (k, t, ls) in enumerate(jobs)]
 
     def do(job):
         kind, tag, lines = job
